@@ -105,6 +105,10 @@ func (sb *sandbox) build() {
 	}
 	seedDir(filepath.Join(sb.Outer, "zz-unrelated"))
 	seedDir(filepath.Join(sb.S, "elsewhere"))
+	// something that is not a record at all (only far away, so that walks of the
+	// prefix-sharing siblings still see records only)
+	mustWrite(filepath.Join(sb.S, "elsewhere", "junk", "garbage.bin"), []byte("\xff\xfe not a record "+sb.CTok))
+	sb.Targets = append(sb.Targets, filepath.Join(sb.S, "elsewhere", "junk", "garbage.bin"), filepath.Join(sb.S, "elsewhere", "junk"))
 	sb.Embed = sb.seedReplica(sb.Root)
 	p := sb.S
 	for _, a := range sb.Anc {
